@@ -16,8 +16,8 @@ import (
 
 // Program is a rule set plus the text it was built from.
 type Program struct {
-	Rules []*grl.Rule
-	Text  string
+	Rules  []*grl.Rule
+	Text   string
 	ByName map[string]*grl.Rule
 	Names  []string // sorted
 }
